@@ -13,6 +13,9 @@
 //!   op : path run|sess <root> <destform> <loc-hex> <ans> <outcome>
 //!   obs: ok <diff after open> ; <diff at the end>   |   ERR <diff>
 //! Oracle (the property): every entry of every diff lies strictly below <root>/dest.
+//! The diffs are SORTED SETS; inside dest they are compared exactly on purpose (the theorems of Props/C05.lean describe them,
+//! see props.d/C05.json `note`).  `HARNESS-ERR ...` = trouble of the harness itself: never printed by the model, never an
+//! oracle class.
 use flute::core::UDPEndpoint;
 use flute::receiver::writer::{
     ObjectCacheControl, ObjectMetadata, ObjectWriter, ObjectWriterBuilder, ObjectWriterBuilderResult,
@@ -160,15 +163,22 @@ fn root_ok(root: &str) -> bool {
     root.strip_prefix(ROOT_PREFIX).map(|n| !n.is_empty() && n.bytes().all(|b| b.is_ascii_digit())).unwrap_or(false)
 }
 
-fn make_sandbox(root: &Path) {
+/// infrastructure trouble of the harness itself (disk full, too many open files, the FDT byte patch does not find its
+/// placeholder ...): a LOUD token the model never prints, and never an oracle failure of the property
+fn harness_err(what: &str) -> String {
+    format!("HARNESS-ERR {}", what.replace(['\n', '\t'], " "))
+}
+
+fn make_sandbox(root: &Path) -> std::io::Result<()> {
     std::fs::remove_dir_all(root).ok();
-    std::fs::create_dir_all(root.join("outer/sub")).unwrap();
-    std::fs::create_dir_all(root.join("dest/sub")).unwrap();
-    std::fs::write(root.join("top.txt"), b"canary top").unwrap();
-    std::fs::write(root.join("outer/canary.txt"), b"canary outer").unwrap();
-    std::fs::write(root.join("outer/sub/deep.txt"), b"canary deep").unwrap();
-    std::fs::write(root.join("dest/old.txt"), b"old content").unwrap();
-    std::fs::write(root.join("dest/sub/in.txt"), b"old inner").unwrap();
+    std::fs::create_dir_all(root.join("outer/sub"))?;
+    std::fs::create_dir_all(root.join("dest/sub"))?;
+    std::fs::write(root.join("top.txt"), b"canary top")?;
+    std::fs::write(root.join("outer/canary.txt"), b"canary outer")?;
+    std::fs::write(root.join("outer/sub/deep.txt"), b"canary deep")?;
+    std::fs::write(root.join("dest/old.txt"), b"old content")?;
+    std::fs::write(root.join("dest/sub/in.txt"), b"old inner")?;
+    Ok(())
 }
 
 #[derive(Default)]
@@ -354,7 +364,9 @@ fn run_one(mode: &str, root_s: &str, form: &str, loc: &str, outcome: &str, o: &m
     let reused = PRISTINE.with(|p| p.borrow_mut().take()).map(|prev| prev == root || std::fs::rename(&prev, &root).is_ok());
     if reused != Some(true) {
         wipe_jail();
-        make_sandbox(&root);
+        if let Err(e) = make_sandbox(&root) {
+            return harness_err(&format!("sandbox: {}", e));
+        }
     }
     let (cwd, dest): (Option<PathBuf>, PathBuf) = match form {
         "abs" => (None, root.join("dest")),
@@ -370,7 +382,9 @@ fn run_one(mode: &str, root_s: &str, form: &str, loc: &str, outcome: &str, o: &m
         _ => return "bad-op".to_string(),
     };
     if let Some(c) = &cwd {
-        std::env::set_current_dir(c).unwrap();
+        if let Err(e) = std::env::set_current_dir(c) {
+            return harness_err(&format!("chdir: {}", e));
+        }
     }
     let before = snap_all();
     let st = Rc::new(RefCell::new(ProbeState::default()));
@@ -403,16 +417,19 @@ fn run_one(mode: &str, root_s: &str, form: &str, loc: &str, outcome: &str, o: &m
         Err(e) => e,
         Ok(()) => {
             if mode == "sess" && st.seen_loc.iter().any(|l| l != loc) {
-                return format!("NODELIVERY writer saw {:?}", st.seen_loc);
+                // the model is run on the op's location string: the session must have handed exactly that string to the
+                // writer (a receiver that normalised the URL would be C05-neutral, but then this op cannot be compared)
+                return harness_err(&format!("nodelivery: writer saw {:?}", st.seen_loc));
             }
             match st.open_ok {
-                None => format!("NOOPEN {:?}", st.calls),
+                None => harness_err(&format!("noopen: {:?}", st.calls)),
                 Some(false) => {
                     // direct mode: open, error.  In a session the receiver forgets an object in error
-                    // (max_objects_error = 0) and starts it again with the next packet: (open, error)+
+                    // (max_objects_error = 0) and starts it again with the next packet: (open, error)+ ; which calls a
+                    // receiver makes after a failed open is its policy (C09), only the direct mode pins the sequence
                     let pairs = st.calls.chunks(2).all(|c| c == ["open", "error"]);
-                    if !pairs || (mode == "run" && st.calls.len() != 2) {
-                        return format!("PROTOCOL {:?}", st.calls);
+                    if mode == "run" && (!pairs || st.calls.len() != 2) {
+                        return harness_err(&format!("protocol: {:?}", st.calls));
                     }
                     format!("ERR {}", show_diff(rootb, &d_end))
                 }
@@ -422,8 +439,9 @@ fn run_one(mode: &str, root_s: &str, form: &str, loc: &str, outcome: &str, o: &m
                         "error" => &["open", "error"],
                         _ => &["open", "interrupted"],
                     };
-                    if st.calls != want {
-                        return format!("PROTOCOL {:?}", st.calls);
+                    // only the harness's own direct calls are pinned; in a session the end diff speaks for itself
+                    if mode == "run" && st.calls != want {
+                        return harness_err(&format!("protocol: {:?}", st.calls));
                     }
                     format!("ok {} ; {}", show_diff(rootb, &d_open), show_diff(rootb, &d_end))
                 }
@@ -457,7 +475,7 @@ fn drive(mode: &str, dest: &Path, loc: &str, outcome: &str, st: &Rc<RefCell<Prob
         };
         let w = match builder.new_object_writer(&endpoint, &1, &1, &meta, now) {
             ObjectWriterBuilderResult::StoreObject(w) => w,
-            _ => return Err("NOWRITER".to_string()),
+            _ => return Err(harness_err("nowriter")),
         };
         if w.open(now).is_err() {
             w.error(now);
@@ -472,8 +490,8 @@ fn drive(mode: &str, dest: &Path, loc: &str, outcome: &str, st: &Rc<RefCell<Prob
         drop(w);
         Ok(())
     } else {
-        let mut pkts = session_packets(loc).map_err(|e| format!("NOSESSION {}", e))?;
-        let first_data = pkts.iter().position(|p| is_data_pkt(p)).ok_or("NOSESSION no data packet")?;
+        let mut pkts = session_packets(loc).map_err(|e| harness_err(&format!("nosession: {}", e)))?;
+        let first_data = pkts.iter().position(|p| is_data_pkt(p)).ok_or_else(|| harness_err("nosession: no data packet"))?;
         match outcome {
             "complete" => {}
             "error" => {
@@ -501,7 +519,9 @@ fn run_seq(root_s: &str, form: &str, toks: &str, o: &mut Oracle) -> String {
     let root = PathBuf::from(root_s);
     PRISTINE.with(|p| *p.borrow_mut() = None);
     wipe_jail();
-    make_sandbox(&root);
+    if let Err(e) = make_sandbox(&root) {
+        return harness_err(&format!("sandbox: {}", e));
+    }
     let (cwd, dest): (Option<PathBuf>, PathBuf) = match form {
         "abs" => (None, root.join("dest")),
         "slash" => (None, PathBuf::from(format!("{}/dest/", root_s))),
@@ -516,7 +536,9 @@ fn run_seq(root_s: &str, form: &str, toks: &str, o: &mut Oracle) -> String {
         _ => return "bad-op".to_string(),
     };
     if let Some(c) = &cwd {
-        std::env::set_current_dir(c).unwrap();
+        if let Err(e) = std::env::set_current_dir(c) {
+            return harness_err(&format!("chdir: {}", e));
+        }
     }
     let builder = match ObjectWriterFSBuilder::new(&dest, true) {
         Ok(b) => b,
@@ -559,7 +581,7 @@ fn run_seq(root_s: &str, form: &str, toks: &str, o: &mut Oracle) -> String {
             match builder.new_object_writer(&endpoint, &1, &(writers.len() as u128), &meta, now) {
                 ObjectWriterBuilderResult::StoreObject(w) => writers.push(w),
                 _ => {
-                    result = Some("NOWRITER".to_string());
+                    result = Some(harness_err("nowriter"));
                     break;
                 }
             }
@@ -761,7 +783,15 @@ fn execute_ops(ops: &[String], workers: usize) -> Vec<(String, Vec<(String, Stri
                     let fails = f[1..].chunks(2).filter(|c| c.len() == 2).map(|c| (c[0].to_string(), c[1].to_string())).collect();
                     (f[0].to_string(), fails)
                 }
-                None => (format!("WORKER-DIED {:?}", status.code()), Vec::new()),
+                None => {
+                    // the worker died (OOM kill, spawn trouble under load): run this op once more in a worker of its own;
+                    // a second death is an infrastructure failure of the run, not an observation of the writer
+                    if workers == 1 && ops.len() == 1 {
+                        eprintln!("path engine: worker died twice (exit {:?}) on op `{}`: infrastructure failure", status.code(), ops[i]);
+                        std::process::exit(75);
+                    }
+                    execute_ops(&ops[i..i + 1], 1).pop().unwrap()
+                }
             });
         }
     }
@@ -915,7 +945,7 @@ pub fn run(ctx: &mut Ctx, _eng: &mut dyn Engine) {
     ctx.rule = format!(
         "every Content-Location = prefix (9 kinds of the property text) + up to {} segments from the 8 kinds, enumerated exhaustively, x \
          {{complete, error, interrupted}} (depth 5: one of the three per location, in rotation), dest spelled abs|slash|dots in rotation; structured escape attempts (prefix x lead x 0..5 climbs of 4 spellings x 8 targets), once with dest spelled abs|slash|dots and once with dest spelled by dots only (. | .. | ./. | sub/.. relative to the dest directory or a child); {} seeded random strings over a larger token set; \
-         histories (2 writers x 6 colliding/nested locations x every sequence of 3 (quick) / 4 (thorough) calls from {{open, complete, error}} on either writer, plus seeded longer histories with up to 3 writers, 20 locations, all five calls, any order; all five dest spellings); a relative-dest phase; {} full Sender->Receiver sessions; each against the real ObjectWriterFSBuilder in a \
+         histories (2 writers x 6 colliding/nested locations x every sequence of 3 (quick) / 4 (thorough) calls from {{open, complete, error}} on either writer, plus seeded longer histories with up to 3 writers, 20 locations, all five calls, any order; all nine dest spellings (absolute, relative, dots only)); a relative-dest phase; {} full Sender->Receiver sessions; each against the real ObjectWriterFSBuilder in a \
          fresh sandbox, tree snapshot before / after open / at the end vs the Lean model's predicted effects; oracle = every effect strictly \
          below dest/; non-trivial = the op had a filesystem effect or the location has a non-Normal component after the strip \
          (distinct by mode, dest spelling, location, outcome)",
@@ -1063,7 +1093,7 @@ pub fn run(ctx: &mut Ctx, _eng: &mut dyn Engine) {
         "a:../x", "http://h/p/q", "x/y/z", "sub/../../outer/canary.txt", "",
     ];
     let calls6 = ["0o", "0c", "0e", "1o", "1c", "1e"];
-    let all_forms = ["abs", "slash", "dots", "rel", "reldot"];
+    let all_forms = ["abs", "slash", "dots", "rel", "reldot", "dot", "dotdot", "dotsdot", "subup"];
     let newtok = |loc: &str| format!("n={}={}", hex(loc.as_bytes()), url_ans(loc));
     let mut hops: Vec<String> = Vec::new();
     let mut k = 0usize;
@@ -1077,7 +1107,7 @@ pub fn run(ctx: &mut Ctx, _eng: &mut dyn Engine) {
                     toks.push(calls6[c % 6].to_string());
                     c /= 6;
                 }
-                hops.push(format!("path seq {} {} {}", root_for(idx), all_forms[k % 5], toks.join(",")));
+                hops.push(format!("path seq {} {} {}", root_for(idx), all_forms[k % all_forms.len()], toks.join(",")));
                 idx += 1;
                 k += 1;
             }
@@ -1098,7 +1128,7 @@ pub fn run(ctx: &mut Ctx, _eng: &mut dyn Engine) {
                 toks.push(format!("{}{}", (r / 64) % made, call));
             }
         }
-        hops.push(format!("path seq {} {} {}", root_for(idx), all_forms[k % 5], toks.join(",")));
+        hops.push(format!("path seq {} {} {}", root_for(idx), all_forms[k % all_forms.len()], toks.join(",")));
         idx += 1;
         k += 1;
     }
@@ -1165,7 +1195,7 @@ pub fn run(ctx: &mut Ctx, _eng: &mut dyn Engine) {
         } else {
             random_loc(&mut rng, &root, true)
         };
-        if !session_deliverable(&loc) || loc.len() > 600 {
+        if !session_deliverable(&loc) || loc.len() > 600 || session_packets(&loc).is_err() {
             ctx.count("sessions:not-deliverable-skipped");
             continue;
         }
